@@ -124,7 +124,8 @@ func verifC32Do(c *http.Client, req *http.Request) (*http.Response, error) {
 func verifC32ReadAll(r io.Reader) ([]byte, error) {
 	b, ok := r.(*verifC32Body)
 	if !ok {
-		panic("verifC32ReadAll: unexpected reader")
+		verifUnmodelled("io.ReadAll over a reader the model does not know")
+		return nil, nil
 	}
 	return append([]byte(nil), b.data...), nil
 }
